@@ -274,6 +274,9 @@ type c04rows struct {
 func c04genRows(r *rand.Rand, version int, uniqueNames bool) *c04rows {
 	rs := &c04rows{version: version}
 	nc := r.Intn(7)
+	if r.Intn(25) == 0 {
+		nc = 30 + r.Intn(40) // a wide table: dozens of (also nested) type descriptions in one frame
+	}
 	ks, tb := c04str(r), c04str(r)
 	rs.meta.Global = r.Intn(2) == 0
 	for i := 0; i < nc; i++ {
